@@ -2,6 +2,9 @@ NOTE = ("decides the structural clauses listed in DESIGN §5 for this property (
         "not the end-to-end behaviour; trusted base: rustc type checker + MIR construction, engine/models.py effect table "
         "for std adaptors, structural induction over the combinator tree, user parsers obey the documented Err contract")
 
+K = ("; both directions (every computed edge is an instance of a contract edge, every contract edge is realised) plus the "
+     "discipline rules restricted to these bodies")
+
 CLAIMED = {
     "C05": {"text": "path-sensitive typestate analysis of every combinator body: abandoned attempts are always rewound "
                     "(POISON), a rewind never truncates emissions of a kept output (KEEP), rewinds are LIFO; covers all "
@@ -44,11 +47,59 @@ CLAIMED = {
                     "a write passes a prefix drop or the final take, never both, with the drop count = write index (MAYBEUNINIT)",
             "design_ref": "§4.1 UNSAFE-INV/MAYBEUNINIT, §5 C19", "note": NOTE,
             "technique": "static inventory + CFG path rule (must-pass-through / must-not-pass-twice) over MIR"},
+
+    "C01": {"text": "each primitive / sequence / choice / option / lookahead / mapping combinator body is abstracted over all its MIR paths "
+                    "to an automaton (nodes: child calls in a given mode and token reads; edges: guard facts, cursor position relative "
+                    "to entry/before/after a child, effects) and compared with the contract automaton written from the PEG reading: "
+                    "children left to right, alternatives in order with the cursor restored before each, first success returned, "
+                    "lookahead ends where it started, rejecting filter/try_map exits Err with a recorded error" + K,
+            "design_ref": "§4.2, §5 C01", "note": NOTE,
+            "technique": "static abstract interpretation of MIR to per-combinator automata + contract-automaton conformance"},
+    "C02": {"text": "automaton conformance of Repeated/SeparatedBy (next, next_cfg, go incl. the unbounded fast path), Collect, "
+                    "CollectExactly, Enumerate, Foldl/Foldr(+With), IntoIter, iterator forms of Then/OrNot/Map: an item is attempted iff "
+                    "count<at_most, a failed item ends the repetition with Ok(None) iff count>=at_least (else Err) at the position "
+                    "before the failed attempt, the separator is attempted/undone per allow_leading/allow_trailing/state, count is "
+                    "incremented on item success" + K,
+            "design_ref": "§4.2, §5 C02", "note": NOTE,
+            "technique": "static abstract interpretation of MIR to per-combinator automata (guard facts) + contract conformance"},
+    "C08": {"text": "automaton conformance of RecoverWith and the three strategies: parser Ok is returned untouched; parser Err -> "
+                    "rewind -> strategy; strategy Ok exits carry exactly the emit of the taken error, Err exits restore it; "
+                    "skip_until / skip_then_retry_until loop order, retry accepted only under the no-new-errors fact" + K
+                    + " and ALT-LINEAR/PFAIL for the taken error",
+            "design_ref": "§4.2, §5 C08", "note": NOTE,
+            "technique": "static automaton conformance + linear-token analysis over MIR"},
+    "C09": {"text": "automaton conformance of Infix/Prefix/Postfix operators (binding-power guard facts, operand power, Err exits restored "
+                    "to pre_op/pre_expr), tuple(1..26)/Vec/Boxed operator tables (declaration order, first success, generated contract), "
+                    "pratt_go loop (prefix-or-atom, then postfix/infix until neither applies, final restore); RECURSE for the two "
+                    "recursion edges; closed-form AFFINE obligations on left_power/right_power",
+            "design_ref": "§4.2, §4.3 AFFINE, §5 C09", "note": NOTE,
+            "technique": "static automaton conformance + affine-domain evaluation of the power functions"},
+    "C11": {"text": "automaton conformance of Memoized::go: an occupied entry exits Err without calling the child (left-recursion cut), "
+                    "a vacant entry inserts the in-progress marker before the child call and resolves it on both outcomes; the miss "
+                    "path is neutral; ALT-LINEAR/ALT-POS/PFAIL around the bookkeeping; MEMO-KEY (type-level) is a listed known finding",
+            "design_ref": "§5 C11", "note": NOTE,
+            "technique": "static automaton conformance + type-level key rule"},
+    "C15": {"text": "automaton conformance of the context providers/consumers (IgnoreWithCtx, ThenWithCtx, WithCtx, MapCtx, Configure, "
+                    "IterConfigure, TryIterConfigure, Just::go_cfg, Repeated::next_cfg: configured bounds win via unwrap_or terms) and "
+                    "SUB-INPUT provenance: with_ctx builds the child input from exactly (new ctx, everything else shared) and copies "
+                    "back only the cursor",
+            "design_ref": "§4.3 CTX-PROV, §5 C15", "note": NOTE,
+            "technique": "static automaton conformance + provenance analysis of aggregates"},
+    "C16": {"text": "automaton conformance of NestedIn::go (outer parser first in Emit, inner run = then_ignore(self.parser_a, end()) on the "
+                    "inner input, result = inner result) and SUB-INPUT conformance of with_input (fresh cursor/cache/errors/memos, outer "
+                    "state+ctx, inner emissions drained once, outer cursor untouched); ALT-LINEAR/PFAIL for the sheltered outer error",
+            "design_ref": "§5 C16", "note": NOTE,
+            "technique": "static automaton conformance + provenance analysis"},
+    "C17": {"text": "automaton conformance of Labelled / MapErr / MapErrWithState: neutral decorators (child result returned, no cursor "
+                    "movement, no emission), label/context decision by the position facts, re-added errors keep their position "
+                    "(ALT-POS) and the sheltered pending error is restored on all paths (ALT-LINEAR)",
+            "design_ref": "§5 C17", "note": NOTE,
+            "technique": "static automaton conformance + linear-token/position-provenance analysis"},
 }
 
 _PENDING = "check under construction in this round (static rule designed in DESIGN §5, not yet registered)"
 NOT_APPLICABLE = {p: _PENDING for p in
-                  ["C01", "C02", "C03", "C07", "C08", "C09", "C10", "C11", "C14", "C15", "C16", "C17"]}
+                  ["C03", "C07", "C10", "C14"]}
 
 NOTES = ("All checks are static: they read /repo's current sources through a rustc_private driver (facts cached by "
          "content hash of src/**, Cargo.toml, Cargo.lock) and never run a chumsky parser. Exit 2 + CHECKER-ERROR = the "
